@@ -232,91 +232,222 @@ def rule_covariance(repo, rep):
       rep.refuted(R, 'Covariance.fit', site(f, node), detail)
 
 
+class _Centering:
+  """Symbolic evaluation of rca._chunk_mean_centering(data, chunks): which
+  rows are kept, which selections of the kept rows get which mean
+  subtracted, which chunk ids the loop visits.  Values:
+    ('data',) ('chunks',) ('known',) mask of chunk != -1
+    ('kept',) rows data[known]; ('lab',) chunks[known]
+    ('sel', c) the kept rows of chunk c (boolean mask or index vector)
+    ('rows', c) kept[sel c]; ('mean', c, axis); ('centred', c, c2)
+    ('ids', kind) the sequence the loop runs over"""
+
+  def __init__(self, repo, f):
+    self.repo, self.f = repo, f
+    p = f.params()
+    self.env = {p[0]: ('data',), p[1]: ('chunks',)}
+    self.centred = []       # (c, c2, axis, node)
+    self.other_writes = []  # writes to the kept rows that are not centrings
+    self.loops = []         # (ids value, node)
+    self.ret = None
+
+  def dn(self, e):
+    d = self.repo.dotted(self.f.module, e)
+    return canon(d) if d else None
+
+  def axis_of(self, call):
+    for k in call.keywords:
+      if k.arg == 'axis':
+        return ast.unparse(k.value)
+    pos = call.args[1:] if self.dn(call.func) else call.args
+    return ast.unparse(pos[0]) if pos else None
+
+  def ev(self, e):
+    if isinstance(e, ast.Name):
+      return self.env.get(e.id, ('?',))
+    if isinstance(e, ast.Constant):
+      return ('const', e.value)
+    if isinstance(e, ast.UnaryOp) and isinstance(e.op, ast.USub) and \
+            isinstance(e.operand, ast.Constant):
+      return ('const', -e.operand.value)
+    if isinstance(e, ast.Compare) and len(e.ops) == 1:
+      a, b = self.ev(e.left), self.ev(e.comparators[0])
+      op = e.ops[0]
+      if a == ('chunks',) and b[0] == 'const':
+        if (isinstance(op, ast.NotEq) and b[1] == -1) or \
+                (isinstance(op, ast.GtE) and b[1] == 0) or \
+                (isinstance(op, ast.Gt) and b[1] == -1):
+          return ('known',)
+        return ('badmask', ast.unparse(e))
+      if isinstance(op, ast.Eq):
+        for x, y in ((a, b), (b, a)):
+          if x == ('lab',) and y[0] == 'id':
+            return ('sel', y[1])
+      return ('?',)
+    if isinstance(e, ast.Subscript):
+      b = self.ev(e.value)
+      if isinstance(e.slice, ast.Constant) and b[0] == 'wheretuple':
+        return b[1]
+      i = self.ev(e.slice)
+      if b == ('data',) and i == ('known',):
+        return ('kept',)
+      if b == ('chunks',) and i == ('known',):
+        return ('lab',)
+      if b == ('kept',) and i[0] == 'sel':
+        return ('rows', i[1])
+      return ('?',)
+    if isinstance(e, ast.BinOp):
+      a, b = self.ev(e.left), self.ev(e.right)
+      if isinstance(e.op, ast.Sub) and a[0] == 'rows' and b[0] == 'mean':
+        return ('centred', a[1], b[1], b[2])
+      if isinstance(e.op, ast.Add):
+        for x, y in ((a, b), (b, a)):
+          if x[0] == 'maxid' and y == ('const', 1):
+            return ('count', 'max+1')
+      return ('?',)
+    if isinstance(e, ast.Call):
+      d = self.dn(e.func)
+      if isinstance(e.func, ast.Attribute) and d is None:
+        recv = self.ev(e.func.value)
+        m = e.func.attr
+        if m in ('astype', 'copy') and recv == ('kept',):
+          return ('kept',)
+        if m == 'mean' and recv[0] == 'rows':
+          return ('mean', recv[1], self.axis_of(e))
+        if m == 'mean' and recv == ('kept',):
+          return ('mean', '<all kept rows>', self.axis_of(e))
+        if m == 'max' and recv in (('chunks',), ('lab',)) and not e.args:
+          return ('maxid',)
+        return ('?',)
+      if d in (canon('numpy.flatnonzero'),) and len(e.args) == 1:
+        v = self.ev(e.args[0])
+        return v if v[0] == 'sel' else ('?',)
+      if d in (canon('numpy.where'), canon('numpy.nonzero')) and \
+              len(e.args) == 1:
+        v = self.ev(e.args[0])
+        return ('wheretuple', v) if v[0] == 'sel' else ('?',)
+      if d == canon('numpy.mean') and e.args:
+        v = self.ev(e.args[0])
+        if v[0] == 'rows':
+          return ('mean', v[1], self.axis_of(e))
+      if d in (canon('numpy.max'), canon('numpy.amax')) and len(e.args) == 1 \
+              and self.ev(e.args[0]) in (('chunks',), ('lab',)):
+        return ('maxid',)
+      if d == canon('numpy.unique') and len(e.args) == 1 and not e.keywords:
+        v = self.ev(e.args[0])
+        if v in (('chunks',), ('lab',)):
+          return ('ids', 'distinct')
+      if isinstance(e.func, ast.Name) and e.func.id == 'int' and e.args:
+        return self.ev(e.args[0])
+      if isinstance(e.func, ast.Name) and e.func.id == 'len' and e.args:
+        v = self.ev(e.args[0])
+        if v == ('ids', 'distinct'):
+          return ('count', 'distinct')
+      if isinstance(e.func, ast.Name) and e.func.id == 'range' and \
+              len(e.args) == 1:
+        v = self.ev(e.args[0])
+        if v[0] == 'count':
+          return ('ids', 'range-' + v[1])
+      if d in (canon('numpy.asarray'), canon('numpy.array')) and e.args:
+        return self.ev(e.args[0])
+    return ('?',)
+
+  def run(self, body):
+    for s_ in body:
+      if isinstance(s_, ast.Assign) and len(s_.targets) == 1:
+        t = s_.targets[0]
+        if isinstance(t, ast.Name):
+          self.env[t.id] = self.ev(s_.value)
+        elif isinstance(t, ast.Tuple) and isinstance(s_.value, ast.Tuple) and \
+                len(t.elts) == len(s_.value.elts):
+          for a, b in zip(t.elts, s_.value.elts):
+            if isinstance(a, ast.Name):
+              self.env[a.id] = self.ev(b)
+        elif isinstance(t, ast.Subscript) and self.ev(t.value) == ('kept',):
+          i, v = self.ev(t.slice), self.ev(s_.value)
+          if i[0] == 'sel' and v[0] == 'centred' and v[1] == i[1]:
+            self.centred.append((i[1], v[2], v[3], s_))
+          else:
+            self.other_writes.append(s_)
+      elif isinstance(s_, ast.AugAssign) and \
+              isinstance(s_.target, ast.Subscript) and \
+              self.ev(s_.target.value) == ('kept',):
+        i, v = self.ev(s_.target.slice), self.ev(s_.value)
+        if isinstance(s_.op, ast.Sub) and i[0] == 'sel' and v[0] == 'mean':
+          self.centred.append((i[1], v[1], v[2], s_))
+        else:
+          self.other_writes.append(s_)
+      elif isinstance(s_, ast.For) and isinstance(s_.target, ast.Name):
+        ids = self.ev(s_.iter)
+        self.loops.append((ids, s_))
+        self.env[s_.target.id] = ('id', s_.target.id)
+        self.run(s_.body)
+      elif isinstance(s_, ast.Return):
+        if isinstance(s_.value, ast.Tuple) and len(s_.value.elts) == 2:
+          self.ret = (self.ev(s_.value.elts[0]), self.ev(s_.value.elts[1]))
+        else:
+          self.ret = (('?',), ('?',))
+      elif isinstance(s_, (ast.Expr, ast.Pass)):
+        continue
+      else:
+        self.other_writes.append(s_)
+
+
 def rule_rca(repo, rep):
   R = 'R-FORM:rca-chunk-centering'
   rep.rule(R, '_chunk_mean_centering subtracts from the rows of each chunk '
            'the mean (axis=0) of exactly those rows, and only rows with '
            'chunk label != -1 are kept')
-  f = repo.get_func('rca._chunk_mean_centering')
-  rep.analysed(f)
-  ok = False
-  detail = 'no in-place centring statement found'
-  for n in ast.walk(f.node):
-    if isinstance(n, ast.AugAssign) and isinstance(n.op, ast.Sub) and \
-            isinstance(n.target, ast.Subscript):
-      tgt = ast.unparse(n.target)
-      val = n.value
-      if isinstance(val, ast.Call) and isinstance(val.func, ast.Attribute) \
-              and val.func.attr == 'mean':
-        src = ast.unparse(val.func.value)
-        axis = [k for k in val.keywords if k.arg == 'axis']
-        axv = ast.unparse(axis[0].value) if axis else (
-            ast.unparse(val.args[0]) if val.args else None)
-        if src == tgt and axv == '0':
-          ok = True
-        elif src != tgt:
-          detail = 'rows %s are centred with the mean of %s' % (tgt, src)
-        else:
-          detail = 'mean taken over axis %s' % axv
-      else:
-        detail = 'rows %s are shifted by %s' % (tgt, ast.unparse(val))
-  rep.add(R, 'rca._chunk_mean_centering:own-mean',
-          'derived' if ok else 'refuted', site(f), '' if ok else detail)
-  # every chunk id is visited: range(max id + 1) or the distinct ids
   Rl = 'R-FORM:rca-every-chunk-centred'
   rep.rule(Rl, 'the centring loop visits every chunk id present: '
            'range(chunks.max() + 1) or a loop over the distinct ids')
-  loops_ = [n for n in ast.walk(f.node) if isinstance(n, ast.For)]
-  # the loop bound is whatever name stands inside range(...) (role, not name)
-  bname = None
-  if loops_ and isinstance(loops_[0].iter, ast.Call) and \
-          ast.unparse(loops_[0].iter.func) == 'range' and \
-          len(loops_[0].iter.args) == 1 and \
-          isinstance(loops_[0].iter.args[0], ast.Name):
-    bname = loops_[0].iter.args[0].id
-  ncd = [v for (n, v) in guards.assignments(f.node, bname or 'n_chunks')
-         if v is not None]
-  if loops_:
-    it = ast.unparse(loops_[0].iter)
-    ok_l = None
-    if it.startswith('range(') and ncd:
-      d_ = ast.unparse(ncd[0])
-      # <labels>.max() + 1 where <labels> is the chunks parameter or its
-      # restriction chunks[<mask>] held in a local
-      lab_names = {'chunks'} | set(
-          n.targets[0].id for n in ast.walk(f.node)
-          if isinstance(n, ast.Assign) and isinstance(n.targets[0], ast.Name)
-          and isinstance(n.value, ast.Subscript) and
-          ast.unparse(n.value.value) == 'chunks')
-      if any(d_ in ('%s.max() + 1' % x, 'np.max(%s) + 1' % x,
-                    'int(%s.max()) + 1' % x, '1 + %s.max()' % x)
-             for x in lab_names):
-        ok_l = True
-      elif 'unique' in d_ or 'len(' in d_:
-        ok_l = False
-    elif 'np.unique(' in it:
-      ok_l = True
-    if ok_l is None:
-      rep.unknown(Rl, 'rca._chunk_mean_centering:loop', site(f, loops_[0]),
-                  'loop over %s not recognised' % it)
+  f = repo.get_func('rca._chunk_mean_centering')
+  rep.analysed(f)
+  cz = _Centering(repo, f)
+  cz.run(f.node.body)
+  key = 'rca._chunk_mean_centering'
+  if cz.other_writes:
+    rep.unknown(R, key + ':own-mean', site(f, cz.other_writes[0]),
+                'statement %s is outside the evaluated forms'
+                % ast.unparse(cz.other_writes[0]).split('\n')[0])
+  elif not cz.centred:
+    rep.unknown(R, key + ':own-mean', site(f), 'no centring statement '
+                'recognised')
+  else:
+    bad = [x for x in cz.centred if x[0] != x[1] or x[2] != '0']
+    if bad:
+      c, c2, ax, node = bad[0]
+      rep.refuted(R, key + ':own-mean', site(f, node), 'the rows of chunk '
+                  '%s have the mean of %s taken over axis %s subtracted'
+                  % (c, 'chunk ' + c2 if c != c2 else 'their own rows', ax))
     else:
-      rep.add(Rl, 'rca._chunk_mean_centering:loop', 'derived' if ok_l else
-              'refuted', site(f, loops_[0]), '' if ok_l else 'the loop runs '
-              'over range(%s): chunk ids with gaps (e.g. {0, 3, 9}) are '
-              'never centred' % ast.unparse(ncd[0]))
-  # the mask is the first element of the returned pair (role, not name)
-  mname = None
-  for r_ in ast.walk(f.node):
-    if isinstance(r_, ast.Return) and isinstance(r_.value, ast.Tuple) and \
-            r_.value.elts and isinstance(r_.value.elts[0], ast.Name):
-      mname = r_.value.elts[0].id
-  masks = [ast.unparse(n.value) for n in ast.walk(f.node)
-           if isinstance(n, ast.Assign) and
-           isinstance(n.targets[0], ast.Name) and
-           n.targets[0].id == mname]
-  good = masks and masks[0] in ('chunks != -1', 'chunks >= 0', 'chunks > -1')
-  rep.add(R, 'rca._chunk_mean_centering:mask', 'derived' if good else
-          'refuted', site(f), '' if good else 'chunk mask is %s' % masks)
+      rep.derived(R, key + ':own-mean', site(f, cz.centred[0][3]))
+  if cz.ret is None or cz.ret[1] != ('kept',):
+    rep.unknown(R, key + ':returns-centred-rows', site(f), 'the second '
+                'returned value is not the array of kept rows that was '
+                'centred')
+  else:
+    rep.derived(R, key + ':returns-centred-rows', site(f))
+  m = cz.ret[0] if cz.ret else ('?',)
+  if m == ('known',):
+    rep.derived(R, key + ':mask', site(f))
+  elif m[0] == 'badmask':
+    rep.refuted(R, key + ':mask', site(f), 'chunk mask is %s' % m[1])
+  else:
+    rep.unknown(R, key + ':mask', site(f), 'returned mask not recognised')
+  if len(cz.loops) != 1:
+    rep.unknown(Rl, key + ':loop', site(f), '%d loops' % len(cz.loops))
+  else:
+    ids, lp = cz.loops[0]
+    if ids in (('ids', 'range-max+1'), ('ids', 'distinct')):
+      rep.derived(Rl, key + ':loop', site(f, lp))
+    elif ids == ('ids', 'range-distinct'):
+      rep.refuted(Rl, key + ':loop', site(f, lp), 'the loop runs over '
+                  'range(<number of distinct ids>): chunk ids with gaps '
+                  '(e.g. {0, 3, 9}) are never centred')
+    else:
+      rep.unknown(Rl, key + ':loop', site(f, lp), 'loop over %s not '
+                  'recognised' % ast.unparse(lp.iter))
   # the inner covariance is the average within-chunk covariance (1/N)
   Rb = 'R-FORM:rca-inner-covariance'
   rep.rule(Rb, 'RCA\'s inner covariance is np.cov(<chunk-centred data>, '
@@ -457,6 +588,11 @@ def rule_rca_whitening(repo, rep):
     if isinstance(e, ast.Subscript):
       # a selection of columns / rows of a matrix: an unconstrained matrix
       return opaque('mat', e)
+    if isinstance(e, ast.Call):
+      # result of a call outside the table: an unconstrained matrix whose
+      # origin is unknown (never the basis of a refutation)
+      counter[0] += 1
+      return ('mat', Poly.sym('unk%d@%d' % (counter[0], e.lineno), 'mat'))
     return ('?', None)
 
   stores = []
@@ -514,6 +650,9 @@ def rule_rca_whitening(repo, rep):
         ok = Poly({tuple(m[1:-1]): Fraction(1)}, 'mat') == isq_args[m[0][1]]
     if ok:
       rep.derived(R, key, site(h, st), sample=dict(rule=R, W=repr(W)))
+    elif 'unk' in repr(W):
+      rep.unknown(R, key, site(h, st), 'W = %r involves the result of a call '
+                  'outside the evaluated forms' % (W,))
     else:
       rep.refuted(R, key, site(h, st), 'W C W^T = %r does not reduce to the '
                   'identity by isq(S) S isq(S) = I (W = %r)' % (T, W))
@@ -710,13 +849,18 @@ def rule_lfda_scatter(repo, rep):
         roles[common[0]] = 'G'
         gd = [s_ for s_ in loops0[0].body if isinstance(s_, ast.Assign) and
               ast.unparse(s_.targets[0]) == common[0]]
-        if gd:
-          # the affinity matrix: the name whose row sums appear in G
-          for x in ast.walk(gd[0].value):
-            if isinstance(x, ast.Call) and isinstance(x.func, ast.Attribute) \
-                    and x.func.attr == 'sum' and \
-                    isinstance(x.func.value, ast.Name):
-              roles[x.func.value.id] = 'A'
+    # the affinity matrix: the loop-local matrix whose row / column sums are
+    # taken
+    assigned = set(s_.targets[0].id for s_ in ast.walk(loops0[0])
+                   if isinstance(s_, ast.Assign) and
+                   isinstance(s_.targets[0], ast.Name))
+    for x in ast.walk(loops0[0]):
+      if isinstance(x, ast.Call) and isinstance(x.func, ast.Attribute) \
+              and x.func.attr == 'sum' and \
+              isinstance(x.func.value, ast.Name) and \
+              x.func.value.id in assigned and \
+              x.func.value.id not in roles:
+        roles[x.func.value.id] = 'A'
   f = astutil.role_view(f0, roles)
   if f is None:
     rep.unknown(R, 'LFDA.fit', site(f0), 'roles %s cannot be given canonical '
@@ -739,7 +883,6 @@ def rule_lfda_scatter(repo, rep):
                                                                  skips[0]))
   else:
     rep.derived(R, 'LFDA.fit:every-class-contributes', site(f, loop))
-  scalars = {'n': 'n', 'nc': 'nc'}
   # n and nc must be the sample counts
   defs = {}
   for n_ in ast.walk(f.node):
@@ -751,75 +894,102 @@ def rule_lfda_scatter(repo, rep):
     rep.unknown(R, 'LFDA.fit:counts', site(f), 'n / nc are not the sample '
                 'counts (n, d = X.shape; nc = Xc.shape[0])')
     return
-  atoms = {'Xc.T.dot(Xc)': 'XtX', '_sum_outer(Xc)': 'scsc',
-           '_sum_outer(X)': 'ss', 'G': 'G'}
-  gdef = [s for s in loop.body if isinstance(s, ast.Assign) and
-          ast.unparse(s.targets[0]) == 'G']
-  gtxt = ast.unparse(gdef[0].value) if gdef else None
-  accepted_g = ('Xc.T.dot(A.sum(axis=0)[:, None] * Xc) - Xc.T.dot(A).dot(Xc)',
-                'Xc.T.dot(A.sum(axis=1)[:, None] * Xc) - Xc.T.dot(A).dot(Xc)',
-                'Xc.T.dot(np.diag(A.sum(axis=0))).dot(Xc) - Xc.T.dot(A).dot(Xc)')
-  if gtxt in accepted_g:
-    rep.derived(R, 'LFDA.fit:G', site(f, gdef[0]))
-  else:
-    rep.unknown(R, 'LFDA.fit:G', site(f), 'definition of G not recognised: '
-                '%s' % gtxt)
-  inc = {}
-  for s in loop.body:
-    if isinstance(s, ast.AugAssign) and isinstance(s.op, ast.Add) and \
-            ast.unparse(s.target) in ('tSb', 'tSw'):
-      v = eval_expr(s.value, scalars, atoms)
-      inc[ast.unparse(s.target)] = (v, s)
+  # symbolic evaluation in the algebra of words over Xc, A (symmetric), the
+  # ones vector and Diag(.), with coefficients rational in n and n_c
+  from ..ncalg import NC, NCEval
+  from ..ratfunc import Rat
+
+  def canon_of(e):
+    d = repo.dotted(f.module, e)
+    return canon(d) if d else None
+
+  def helper(call):
+    g = repo.func_by_dotted(repo.dotted(f.module, call.func) or '')
+    if g is None or g.cls is not None:
+      return None
+    return g.params(), g.node.body
   one = Rat.const(1)
   n_, nc_ = Rat.sym('n'), Rat.sym('nc')
-  want_b = LinM.atom('G').scale(one / n_) + \
-      LinM.atom('XtX').scale(one - nc_ / n_) + \
-      LinM.atom('scsc').scale(one / n_)
-  want_w = LinM.atom('G').scale(one / nc_)
+  Xc, Am, Xall = NC.atom('Xc'), NC.atom('A', symmetric=True), NC.atom('X')
+  ev = NCEval({'Xc': Xc, 'A': Am, 'X': Xall}, {'n': n_, 'nc': nc_},
+              canon_of, helper)
+  D = Am.mul(NC.ones())
+  from ..ncalg import _diag
+  Gw = Xc.T().mul(_diag(D)).mul(Xc).add(Xc.T().mul(Am).mul(Xc), -1)
+  ss_c = Xc.T().mul(NC.ones()).mul(NC.ones().T()).mul(Xc)
+  ss_all = Xall.T().mul(NC.ones()).mul(NC.ones().T()).mul(Xall)
+  want_b = Gw.scale(one / n_).add(
+      Xc.T().mul(Xc).scale(one - nc_ / n_)).add(ss_c.scale(one / n_))
+  want_w = Gw.scale(one / nc_)
+  # statements of the class loop in order: temporaries, then the increments
+  inc = {}
+  for s_ in loop.body:
+    if isinstance(s_, ast.Assign) and len(s_.targets) == 1 and \
+            isinstance(s_.targets[0], ast.Name) and \
+            s_.targets[0].id not in ('Xc', 'A', 'nc'):
+      v = ev.ev(s_.value)
+      if isinstance(v, NC):
+        ev.mats[s_.targets[0].id] = v
+      elif isinstance(v, Rat):
+        ev.scalars[s_.targets[0].id] = v
+      else:
+        ev.mats.pop(s_.targets[0].id, None)
+    elif isinstance(s_, ast.AugAssign) and isinstance(s_.op, ast.Add) and \
+            ast.unparse(s_.target) in ('tSb', 'tSw'):
+      inc[ast.unparse(s_.target)] = (ev.ev(s_.value), s_)
   for name, want in (('tSb', want_b), ('tSw', want_w)):
-    if name not in inc or inc[name][0] is None:
+    if name not in inc or not isinstance(inc[name][0], NC):
       rep.unknown(R, 'LFDA.fit:%s-increment' % name, site(f),
                   'per-class increment not derivable')
-    elif isinstance(inc[name][0], LinM) and inc[name][0] == want:
+    elif inc[name][0] == want:
       rep.derived(R, 'LFDA.fit:%s-increment' % name, site(f, inc[name][1]),
                   sample=dict(rule=R, statement=ast.unparse(inc[name][1]),
                               normal_form=repr(inc[name][0])))
     else:
       rep.refuted(R, 'LFDA.fit:%s-increment' % name, site(f, inc[name][1]),
-                  'per-class increment of %s is %r, documented %r'
-                  % (name, inc[name][0], want))
-  # the adjustment after the loop
+                  'per-class increment of %s is %r, the pairwise definition '
+                  'gives %r' % (name, inc[name][0], want))
+  # the adjustment after the loop, in terms of the accumulated sums
   body = f.node.body
-  post = [s for s in body if isinstance(s, (ast.AugAssign, ast.Assign)) and
-          getattr(s, 'lineno', 0) > loop.end_lineno and
-          ast.unparse(s.target if isinstance(s, ast.AugAssign)
-                      else s.targets[0]) == 'tSb' and
-          'tSw' in ast.unparse(s.value)]
+  post = [s_ for s_ in body if isinstance(s_, (ast.AugAssign, ast.Assign)) and
+          getattr(s_, 'lineno', 0) > loop.end_lineno and
+          ast.unparse(s_.target if isinstance(s_, ast.AugAssign)
+                      else s_.targets[0]) == 'tSb' and
+          'tSw' in [x.id for x in ast.walk(s_.value)
+                    if isinstance(x, ast.Name)] and
+          'tSw.T' not in ast.unparse(s_.value)]
   if not post:
     rep.unknown(R, 'LFDA.fit:tSb-final', site(f), 'final adjustment of tSb '
                 'not found')
     return
-  s = post[0]
-  atoms2 = dict(atoms)
-  atoms2['tSw'] = 'Sw'
-  atoms2['tSb'] = 'SbAcc'
-  v = eval_expr(s.value, scalars, atoms2)
-  if v is None or not isinstance(v, LinM):
-    rep.unknown(R, 'LFDA.fit:tSb-final', site(f, s), 'not derivable')
+  s_ = post[0]
+  Sw, SbAcc = NC.atom('SwAcc'), NC.atom('SbAcc')
+  ev2 = NCEval({'X': Xall, 'tSw': Sw, 'tSb': SbAcc}, {'n': n_},
+               canon_of, helper)
+  # temporaries defined between the loop and the adjustment
+  for t_ in body:
+    if isinstance(t_, ast.Assign) and len(t_.targets) == 1 and \
+            isinstance(t_.targets[0], ast.Name) and \
+            loop.end_lineno < t_.lineno < s_.lineno and \
+            t_.targets[0].id not in ('tSb', 'tSw'):
+      v = ev2.ev(t_.value)
+      if isinstance(v, NC):
+        ev2.mats[t_.targets[0].id] = v
+  v = ev2.ev(s_.value)
+  if not isinstance(v, NC):
+    rep.unknown(R, 'LFDA.fit:tSb-final', site(f, s_), 'not derivable')
     return
-  if isinstance(s, ast.AugAssign):
-    total = LinM.atom('SbAcc') + v if isinstance(s.op, ast.Add) else \
-        LinM.atom('SbAcc') - v
+  if isinstance(s_, ast.AugAssign):
+    total = SbAcc.add(v, 1 if isinstance(s_.op, ast.Add) else -1)
   else:
     total = v
-  want = LinM.atom('SbAcc') - LinM.atom('ss').scale(one / n_) - \
-      LinM.atom('Sw')
+  want = SbAcc.add(ss_all.scale(one / n_), -1).add(Sw, -1)
   if total == want:
-    rep.derived(R, 'LFDA.fit:tSb-final', site(f, s))
+    rep.derived(R, 'LFDA.fit:tSb-final', site(f, s_))
   else:
-    rep.refuted(R, 'LFDA.fit:tSb-final', site(f, s), 'the between-class '
+    rep.refuted(R, 'LFDA.fit:tSb-final', site(f, s_), 'the between-class '
                 'scatter is finished as %r, the pairwise definition gives %r '
-                '(statement: %s)' % (total, want, ast.unparse(s)))
+                '(statement: %s)' % (total, want, ast.unparse(s_)))
 
 
 def check(repo, rep, tier):
